@@ -216,7 +216,8 @@ theorem cap0_counterexample :
 blocking and with the id carried in the entry, and each caller removes only its own channel -/
 theorem notification_shape :
     Generated.notifCreateCaps = [1, 1, 1, 1] ∧ Generated.notifyAllNonBlocking = true ∧
-    Generated.notifyKeyedByEntryId = true ∧ Generated.notifRemoveOwnIdDeferred = true := by decide
+    Generated.notifyKeyedByEntryId = true ∧ Generated.notifRemoveOwnIdDeferred = true ∧
+    Generated.notifIdsRandomUuid = true := by decide
 
 /-- decision logic of the write paths: the dimension check comes before anything is proposed or
 proxied; a failed dial and a failed RPC on the proxy path are returned, not swallowed; the wait
